@@ -222,6 +222,9 @@ func runC09(c *ctx) error {
 	for t := 0; t < int(world.NumKeyTypes); t++ {
 		keys = append(keys, world.NewKey(t, world.KeyType(t)), world.NewKey(10+t, world.KeyType(t)))
 	}
+	// a secp256k1 key with a coordinate whose minimal big-endian form is shorter than 32 bytes: the library's JWK
+	// for it (pubkey.GetPublicKeyJWK) must still be the matching key of what it signs
+	keys = append(keys, world.ShortCoordinateKey())
 	thorough := c.tier == "thorough"
 	add := func(label string, compact string, v jwkVariant, expect string) {
 		hf := hdrFacts{b64: "B64Absent"}
@@ -382,6 +385,20 @@ func runC09(c *ctx) error {
 					"empty":        ``,
 				} {
 					add("malformed-header:"+name, world.CompactJWS(h, pl, k), matching, "reject")
+				}
+				// repeated member names are refused even when the signature covers what a lenient decoder (last or first
+				// occurrence wins) would re-serialise the header to
+				for _, dup := range [][3]string{
+					{fmt.Sprintf(`{"alg":"%s","alg":"%s"}`, k.Type.Alg(), k.Type.Alg()), fmt.Sprintf(`{"alg":"%s"}`, k.Type.Alg()), fmt.Sprintf(`{"alg":"%s"}`, k.Type.Alg())},
+					{fmt.Sprintf(`{"alg":"none","alg":"%s","kid":"key-1"}`, k.Type.Alg()), fmt.Sprintf(`{"alg":"%s","kid":"key-1"}`, k.Type.Alg()), `{"alg":"none","kid":"key-1"}`},
+					{fmt.Sprintf(`{"alg":"%s","kid":"a","kid":"b"}`, k.Type.Alg()), fmt.Sprintf(`{"alg":"%s","kid":"b"}`, k.Type.Alg()), fmt.Sprintf(`{"alg":"%s","kid":"a"}`, k.Type.Alg())},
+					{fmt.Sprintf(`{"b64":true,"alg":"%s","b64":true}`, k.Type.Alg()), fmt.Sprintf(`{"alg":"%s","b64":true}`, k.Type.Alg()), fmt.Sprintf(`{"alg":"%s","b64":true}`, k.Type.Alg())},
+				} {
+					for wi, which := range []string{"last-wins", "first-wins"} {
+						msg := rawURL.EncodeToString([]byte(dup[1+wi])) + "." + rawURL.EncodeToString(pl)
+						add("malformed-header:duplicate:signed-"+which,
+							rawURL.EncodeToString([]byte(dup[0]))+"."+rawURL.EncodeToString(pl)+"."+rawURL.EncodeToString(k.RawSign([]byte(msg))), matching, "reject")
+					}
 				}
 			}
 		}
